@@ -31,8 +31,11 @@ func TestC12(t *testing.T) {
 		"virtual time (synctest) for 'resolved within a bounded time after the connection died'", "at connection level there is no per-request timeout (it lives in RoundTrip): silence is bounded by the ping check")
 	// RoundTrip pools its per-request Ctx objects, each with a timer and a channel of the bubble that made them: the
 	// pool hook keeps them from travelling into a later bubble (withholding is always legal for a sync.Pool)
-	http2.VerifSetPoolHook(func(kind string, obj any, acquire bool) bool { return kind == "clientctx" && !acquire })
-	defer http2.VerifSetPoolHook(nil)
+	http2.VerifSetPoolHook(func(kind string, obj any, acquire bool) bool {
+		poisonHook(kind, obj, acquire)
+		return kind == "clientctx" && !acquire
+	})
+	defer http2.VerifSetPoolHook(poisonHook)
 	n := r.Pick(3000, 150000)
 	for i := 0; i < n; i++ {
 		id := fmt.Sprintf("x%d", i)
